@@ -405,7 +405,14 @@ pub fn history(cx: &mut Ctx, family: &str, maxops: u64) {
                 // growth inside the call is then order-independent), or existing keys are mixed
                 // in but the call is kept small enough not to start a resize.
                 let (keys, hint) = if cx.rng.chance(1, 2) {
-                    let n = cx.rng.below(24);
+                    // (with tombstones in the main table, which of the call's inserts reuse one -
+                    // and so when the table fills up - is not observable either: then the call
+                    // stays within the free capacity)
+                    let st0 = cx.maps[s].as_ref().unwrap().verif_state();
+                    let bc = if st0.main_buckets <= 8 { st0.main_buckets.saturating_sub(1) } else { st0.main_buckets / 8 * 7 };
+                    let tombs = bc.saturating_sub(st0.main_cap);
+                    let free0 = (st0.main_cap - st0.main_len) as u64;
+                    let n = if tombs > 0 { cx.rng.below(free0.min(24) + 1) } else { cx.rng.below(24) };
                     let mut keys: Vec<u64> = Vec::new();
                     for _ in 0..n {
                         let k = fresh_key(cx, s, &h);
